@@ -84,13 +84,28 @@ func goEnv() []string {
 }
 
 func loadCfg() map[string]checkCfg {
-	b, err := os.ReadFile(filepath.Join(root, "checks", "checks.json"))
-	if err != nil {
-		fatal2("cannot read checks.json: %v", err)
+	// one fragment per check: checks/cNN/check.json {"id": "CNN", ...}
+	files, _ := filepath.Glob(filepath.Join(root, "checks", "*", "check.json"))
+	m := map[string]checkCfg{}
+	for _, f := range files {
+		b, err := os.ReadFile(f)
+		if err != nil {
+			fatal2("cannot read %s: %v", f, err)
+		}
+		var c struct {
+			ID string `json:"id"`
+			checkCfg
+		}
+		if err := json.Unmarshal(b, &c); err != nil {
+			fatal2("bad %s: %v", f, err)
+		}
+		if c.Pkg == "" {
+			c.Pkg = "./checks/" + filepath.Base(filepath.Dir(f))
+		}
+		m[c.ID] = c.checkCfg
 	}
-	var m map[string]checkCfg
-	if err := json.Unmarshal(b, &m); err != nil {
-		fatal2("bad checks.json: %v", err)
+	if len(m) == 0 {
+		fatal2("no checks/*/check.json found under %s", root)
 	}
 	return m
 }
@@ -120,7 +135,7 @@ func main() {
 	} else if exe, err := os.Executable(); err == nil {
 		// bin/vcheck -> root
 		d := filepath.Dir(filepath.Dir(exe))
-		if _, err := os.Stat(filepath.Join(d, "checks", "checks.json")); err == nil {
+		if _, err := os.Stat(filepath.Join(d, "checks")); err == nil {
 			root = d
 		}
 	}
